@@ -449,10 +449,11 @@ Qed.
 
 (* ---- the sorts are sort.Sort on the two Less types ---- *)
 From Coq Require Import String.
-(* SortByIndex is sort.Sort(updatesSortIndex(us)), SortByTimestamp is sort.Sort(updatesSortTS(us)) *)
-Definition sort_calls_expected : list string * list string :=
-  (["sort.Sort"; "updatesSortIndex"], ["sort.Sort"; "updatesSortTS"])%string.
+(* SortByIndex and SortByTimestamp are one call of the package sort (sort.Sort on an adapter type or
+   sort.Slice with a method value) on the receiver; the translator names the order of the first
+   gen_less_index and of the second gen_less_ts (proved equal to less_index, less_ts above) *)
+Definition sort_calls_expected : string * string := ("sort", "sort")%string.
 
 Lemma gen_sort_calls :
-  (calls_Updates_SortByIndex, calls_Updates_SortByTimestamp) = sort_calls_expected.
+  (sortform_Updates_SortByIndex, sortform_Updates_SortByTimestamp) = sort_calls_expected.
 Proof. reflexivity. Qed.
